@@ -17,19 +17,19 @@ def make(family, rng, tier):
     if family == "many":
         scn = sysgen.gen_many(rng, "priority", tier)
         scn["oracles"] = ORACLES
-        scn["defer"] = ["C01.", "C02."]
+        scn["defer"] = ["C01.", "C02.", "C03.conservation"]
         return scn
     if family == "preempt":
         scn = sysgen.gen_preempt(rng, tier, offgrid=rng.random() < 0.5)
         scn["oracles"] = ORACLES
-        scn["defer"] = ["C01.", "C02."]
+        scn["defer"] = ["C01.", "C02.", "C03.conservation"]
         return scn
     if family == "gen":
         scn = sysgen.gen_generated(rng, rng.choice(ALGOS) if ALGOS else None, tier)
     else:
         scn = sysgen.gen(rng, rng.choice(ALGOS) if ALGOS else None, PROP, tier)
     scn["oracles"] = ORACLES
-    scn["defer"] = ["C01.", "C02."]
+    scn["defer"] = ["C01.", "C02.", "C03.conservation"]
     if "pipes" in scn and rng.random() < 0.2:
         # recurring jobs: the id of a finished pipeline comes back, possibly in another priority class
         scn["reuse_ids"] = True
